@@ -141,7 +141,7 @@ func Guard(timeout time.Duration, fn func() error) (name string) {
 		// the worker is busy (a call parked by a schedule gate, or a concurrent driver): run this call on its own goroutine
 		go job()
 	}
-	deadline := time.After(timeout)
+	deadline := After(timeout)
 	tick := time.NewTicker(100 * time.Millisecond)
 	defer tick.Stop()
 	for {
@@ -173,6 +173,50 @@ var (
 	workerMu sync.Mutex
 	worker   chan func()
 )
+
+// Stopwatch measures the time this process has been seen running: a gap of more than 200 ms between two readings
+// (machine suspended or starved) is not counted.
+type Stopwatch struct {
+	last time.Time
+	acc  time.Duration
+}
+
+func NewStopwatch() *Stopwatch { return &Stopwatch{last: time.Now()} }
+
+func (w *Stopwatch) Elapsed() time.Duration {
+	now := time.Now()
+	if d := now.Sub(w.last); d < 200*time.Millisecond {
+		w.acc += d
+	}
+	w.last = now
+	return w.acc
+}
+
+// After is time.After for watchdogs: it counts d in 50 ms ticks that this process has actually seen, so that a
+// suspended or starved machine (a snapshot of the sandbox, a frozen VM: the clock jumps, a plain timer fires at
+// once on resume) does not turn into a "stuck" verdict - a tick that was missed is not counted.
+func After(d time.Duration) <-chan struct{} {
+	ch := make(chan struct{})
+	go func() {
+		n := int(d / (50 * time.Millisecond))
+		if n < 1 {
+			n = 1
+		}
+		t := time.NewTicker(50 * time.Millisecond)
+		defer t.Stop()
+		last := time.Now()
+		for i := 0; i < n; {
+			<-t.C
+			now := time.Now()
+			if now.Sub(last) < 500*time.Millisecond {
+				i++ // (a gap of more than ten periods means this process did not run: that time is not counted)
+			}
+			last = now
+		}
+		close(ch)
+	}()
+	return ch
+}
 
 // RunawayBytes is the heap size beyond which a call in flight counts as stuck.
 var RunawayBytes uint64 = 6 << 30
